@@ -9,7 +9,7 @@ from ..session import Outcome
 from . import PropBase, steps_with_ids
 from .c06 import _first_non_plain
 
-FAULTS = ("exhaust", "stack", "clear", "clear_typing", "reclimit", "root_order")
+FAULTS = ("exhaust", "stack", "clear", "clear_typing", "reclimit", "root_order", "reject_deep")
 
 
 def _edge_wrap(edge_t, inner_v, inner_w):
@@ -56,6 +56,15 @@ def deep_pair(rng, group, mod, root_index, depth, cfg):
     return {"$chain": levels}, None
 
 
+def _wire_scalar(v):
+    for k in ("date", "uuid", "int", "str"):
+        try:
+            return gen.scalar_wire(k, v)
+        except Exception:
+            continue
+    return v
+
+
 class C07(PropBase):
     ID = "C07"
     TIMEOUT_IS_VERDICT = True
@@ -88,6 +97,11 @@ class C07(PropBase):
         # keep scalar payload fields simple so that deep values stay cheap
         for d in group:
             mod["decls"].append(d)
+        # a recursive string-valued alias (cycle closed through a mapping and a union)
+        alias_kind = rng.choice([None, "rec_first", "int_first"])
+        if alias_kind:
+            body = "dict[str, VwTree | int]" if alias_kind == "rec_first" else "dict[str, int | VwTree]"
+            mod["decls"].append({"d": "raw", "n": "VwTree", "src": f"VwTree = typing.TypeAliasType('VwTree', {body!r})\n"})
         world = {"modules": [mod]}
         env = self.base_env(rng, fault_free=True)
         limit = rng.choice([1000, 1000, 2000, 5000]) if "reclimit" in sw else 1000
@@ -101,8 +115,20 @@ class C07(PropBase):
                 roots.append((ri, wrap, "wrap"))
         rng.shuffle(roots)
         roots = roots[: rng.randint(1, 4)]
+        if alias_kind:
+            roots.append(("alias", None, "alias"))
+        burst = "exhaust" in sw and rng.random() < 0.4  # an exhaustion-heavy run on few roots
+        # a rejection-heavy run: many inputs that are rightly refused deep inside the recursion, with
+        # valid values in between (whatever unwinding leaves behind must not add up)
+        rburst = "reject_deep" in sw and not burst and rng.random() < 0.35
+        if burst:
+            roots = roots[:1]
+        if rburst:
+            roots = [r for r in roots if r[2] == "self"][:1] or roots[:1]
         steps = []
-        n = rng.randint(2, 10 if tier == "quick" else 16)
+        n = rng.randint(2, 10 if tier == "quick" else 16) if not burst else rng.randint(8, 14)
+        if rburst:
+            n = rng.randint(70, 130)
         while len(steps) < n:
             r = rng.random()
             if steps and "clear" in sw and r < 0.12:
@@ -112,17 +138,47 @@ class C07(PropBase):
                 steps.append({"op": "clear_typing"})
                 continue
             ri, shape, kind = rng.choice(roots)
+            if kind == "alias":
+                exhaust = "exhaust" in sw and rng.random() < (0.5 if burst else 0.2)
+                d = int(limit / rng.choice([3, 4, 5])) if exhaust else rng.choice([0, 1, 2, 3, rng.randint(0, D)])
+                levels = [{"tag": "$dict", "cls": "", "f": {"a": rng.randint(-5, 5), "b": rng.randint(0, 9)}, "edge": "union", "edge_field": "n", "terminal": 7}
+                          for _ in range(d + 1)]
+                bad = "reject_deep" in sw and not exhaust and rng.random() < 0.3
+                if bad:
+                    levels[-1]["terminal"] = "not-a-number"
+                step = {"op": "roundtrip" if not bad else "unmarshal", "t": {"k": "raw", "src": "VwTree"}, "mod": "vw0", "vdepth": d}
+                step["x" if bad else "v"] = {"$chain": levels}
+                if exhaust:
+                    step["exhaust"] = True
+                if bad:
+                    step["rejected"] = True
+                steps.append(step)
+                continue
             base = {"k": "ref", "m": "vw0", "n": group[ri]["n"]}
             if rng.random() < 0.15:
                 steps.append({"op": "build", "kind": rng.choice(["marshaller", "unmarshaller", "codec"]), "t": self._root_t(base, shape, kind), "mod": "vw0"})
                 continue
-            exhaust = "exhaust" in sw and rng.random() < 0.2
+            exhaust = "exhaust" in sw and rng.random() < (0.5 if burst else 0.2)
             if exhaust:
                 d = int(limit / rng.choice([3, 4, 5]))  # certainly beyond the headroom
             else:
                 d = rng.choice([0, 1, 2, 3, rng.randint(0, D), rng.randint(0, D)])
             v, w = deep_pair(rng, group, "vw0", ri, d, cfg)
             t = self._root_t(base, shape, kind)
+            if rburst and kind == "self":
+                d = rng.randint(max(6, D - 4), D) if rng.random() < 0.75 else rng.randint(3, 8)
+                v, w = deep_pair(rng, group, "vw0", ri, d, cfg)
+            if "reject_deep" in sw and not exhaust and kind == "self" and d >= 1 and rng.random() < (0.8 if rburst else 0.3):
+                # F11 deep inside: the wire form of the chain with an unconvertible innermost scalar;
+                # the rejection unwinds through every proxy on the way up
+                wl = copy.deepcopy(v["$chain"])
+                for lv in wl:
+                    lv["tag"] = "$dict"
+                    for fk, fv in list(lv["f"].items()):
+                        lv["f"][fk] = gen.scalar_wire("x", fv) if not isinstance(fv, dict) or any(t_ in fv for t_ in ("$list", "$dict", "$tuple")) else _wire_scalar(fv)
+                wl[-1]["f"]["v"] = {"$list": [{"$list": []}]}
+                steps.append({"op": "unmarshal", "t": t, "x": {"$chain": wl}, "mod": "vw0", "vdepth": d, "rejected": True})
+                continue
             if kind == "wrap":
                 v, w = self._wrap_value(shape, v, w)
             step = {"op": "roundtrip", "t": t, "v": v, "mod": "vw0", "vdepth": d + (1 if kind == "wrap" and shape in ("list", "dict", "tuplevar") else 0)}
@@ -130,6 +186,15 @@ class C07(PropBase):
                 step["depth"] = rng.randint(1, 60)
             if exhaust:
                 step["exhaust"] = True
+                if kind == "self" and rng.random() < 0.5:
+                    # exhaust the stack in the *unmarshal* direction: hand over the wire form directly
+                    wl = copy.deepcopy(v["$chain"]) if isinstance(v, dict) and "$chain" in v else None
+                    if wl is not None:
+                        for lv in wl:
+                            lv["tag"] = "$dict"
+                            lv["f"] = {fk: _wire_scalar(fv) if isinstance(fv, dict) and not any(t_ in fv for t_ in ("$list", "$dict", "$tuple")) else fv
+                                       for fk, fv in lv["f"].items()}
+                        step = {"op": "unmarshal", "t": t, "x": {"$chain": wl}, "mod": "vw0", "vdepth": d, "exhaust": True, "rejected": True}
             steps.append(step)
         return {"prop": self.ID, "seed": seed, "tier": tier, "world": world, "env": env, "steps": steps_with_ids(steps), "meta": {"swarm": sw, "limit": limit}}
 
@@ -170,6 +235,17 @@ class C07(PropBase):
                 sess.violation("build-raised", i, {"t": model.tsrc(step["t"]), "kind": step["kind"], "exc": f"{type(out.exc).__name__}: {out.exc}"[:240]},
                                sig=f"build-raised:{type(out.exc).__name__}:{step['t']['k']}")
             return
+        if step["op"] == "unmarshal" and step.get("rejected"):
+            if not out.ok:
+                if step.get("exhaust") and isinstance(out.exc, RecursionError):
+                    sess.faults["exhaust"] += 1
+                    sess.aborted = True
+                    sess.probes["recursion_abort_injected_in_unmarshal"] += 1
+                else:
+                    sess.faults["reject_deep"] += 1
+                    sess.probes["rejection_unwound_through_proxies"] += 1
+                sess.fault_fired_before = True
+            return
         if step["op"] != "roundtrip":
             return
         sid = step.get("id", i)
@@ -206,7 +282,7 @@ class C07(PropBase):
             sess.violation("level-passed-through-raw", i, {"t": tsrc, "depth": d, "where": bad[0][:80], "class": bad[1], "direction": "marshal"},
                            sig=f"raw-level:marshal:{step['t']['k']}")
             return
-        err = conform.conforms(step["t"], out.value, sess.world)
+        err = conform.conforms(step["t"], out.value, sess.world) if step["t"]["k"] != "raw" else None
         if err is not None:
             sess.violation("level-passed-through-raw", i, {"t": tsrc, "depth": d, "where": err[:160], "direction": "unmarshal"},
                            sig=f"raw-level:unmarshal:{step['t']['k']}")
